@@ -126,7 +126,6 @@ theorem bad_number_cancels (w : World) (s s' : State) (hm : s.mode = .selection)
     (hnone : ∀ x n, currentItem s = .ok (some x) → atoi s.buffer = some n → selectLink x n = none)
     (hs : update w s 13 = .ok s') :
     s' = { s with buffer := [], mode := .normal } := by
-  have _ := hnone
   have e0 : '0'.toNat = 48 := by decide
   have e9 : '9'.toNat = 57 := by decide
   have ec : ':'.toNat = 58 := by decide
@@ -136,7 +135,16 @@ theorem bad_number_cancels (w : World) (s s' : State) (hm : s.mode = .selection)
   simp at hs
   split at hs
   · cases hs
-  · split at hs <;> cases hs <;> rfl
+  · rename_i cur hcur
+    split at hs
+    · cases hs; rfl
+    · rename_i l hl
+      exfalso
+      split at hl
+      · rename_i n x hn
+        rw [hnone x n hcur hn] at hl
+        cases hl
+      · cases hl
 
 /-- `atoi` of an over-long digit string is `none` (the overflow that used to panic), and link
     numbers below 1 select nothing. -/
@@ -154,5 +162,138 @@ theorem number_zero_selects_nothing (x : T) (n : Int) (h : n < 1) : selectLink x
     intro bl; simp [Select.actor, hlt]
   cases x <;> simp only [selectLink, hp, ha]
   split <;> rfl
+
+/-! ### Media keys and the hook (added with the link model) -/
+
+/-- `o` on a post (or an activity about a post) that has media starts the hook: `opening` mode
+    with the media link in the buffer; without media nothing changes. -/
+theorem o_opens_media (w : World) (s : State) (cur : Option T) (hm : s.mode = .normal)
+    (hc : currentItem s = .ok cur) :
+    update w s 'o'.toNat =
+      .ok (match mediaOf w cur with
+           | some x => openExternally s x.link
+           | none => s) := by
+  rw [update_normal w s _ hm (by decide) (by decide) (by decide) (by decide),
+    keySwitch_media w s _ cur (.inl rfl) hc, if_pos rfl]
+  rfl
+
+/-- `p` and `b` open the highlighted actor's picture / banner, and only an actor's. -/
+theorem p_b_open_pictures (w : World) (s : State) (cur : Option T) (hm : s.mode = .normal)
+    (hc : currentItem s = .ok cur) (k : Nat) (hk : k = 'p'.toNat ∨ k = 'b'.toNat) :
+    update w s k =
+      .ok (match pictureOf w (k = 'b'.toNat) cur with
+           | some x => openExternally s x.link
+           | none => s) := by
+  have ep : 'p'.toNat = 112 := by decide
+  have eb : 'b'.toNat = 98 := by decide
+  have eo : 'o'.toNat = 111 := by decide
+  have hk' : k = 112 ∨ k = 98 := by rw [ep, eb] at hk; exact hk
+  rw [update_normal w s k hm (by omega) (by omega) (by omega) (by omega),
+    keySwitch_media w s k cur (.inr hk) hc, if_neg (by rw [eo]; omega)]
+  rfl
+
+/-- A number followed by Enter opens exactly the link `SelectLink` names, externally. -/
+theorem enter_opens_externally (w : World) (s : State) (x : T) (n : Int) (l : Str)
+    (hm : s.mode = .selection) (hc : currentItem s = .ok (some x))
+    (hn : atoi s.buffer = some n) (hl : selectLink x n = some l) :
+    update w s 13 = .ok (openExternally s l) := by
+  have e0 : '0'.toNat = 48 := by decide
+  have e9 : '9'.toNat = 57 := by decide
+  have ec : ':'.toNat = 58 := by decide
+  have ed : '.'.toNat = 46 := by decide
+  unfold update
+  simp only [hm, e0, e9, ec, ed, hc, hn, hl]
+  simp
+
+/-- While a hook is running a digit starts a *fresh* selection: the link shown in the status
+    line is not part of the number. -/
+theorem digit_while_opening (w : World) (s : State) (d : Nat) (hm : s.mode = .opening)
+    (hd : '0'.toNat ≤ d ∧ d ≤ '9'.toNat) :
+    update w s d = .ok { s with buffer := [Char.ofNat d], mode := .selection } := by
+  have e0 : '0'.toNat = 48 := by decide
+  have e9 : '9'.toNat = 57 := by decide
+  have ec : ':'.toNat = 58 := by decide
+  rw [e0, e9] at hd
+  unfold update
+  have h1 : d ≠ 27 := by omega
+  have h2 : d ≠ 127 := by omega
+  have h3 : d ≠ 58 := by omega
+  simp [hm, h1, h2, h3, e0, e9, ec, hd.1, hd.2]
+
+/-- When the hook exits the interface returns to normal — unless the user has moved on, in
+    which case nothing changes (and in particular nothing is left locked or half-typed). -/
+theorem hookDone_spec (s : State) :
+    hookDone s = (if s.mode = .opening then { s with mode := .normal, buffer := [] } else s) ∧
+    (s.mode ≠ .opening → hookDone s = s) := by
+  refine ⟨rfl, fun h => ?_⟩
+  unfold hookDone
+  rw [if_neg h]
+
+/-- The representation invariant survives starting and finishing a hook. -/
+theorem hook_keeps_inv (s : State) (l : Str) (h : Inv s) (hm : s.mode ≠ .loading) :
+    Inv (openExternally s l) ∧ Inv (hookDone s) := by
+  have hok : HistOk s := h.1 hm
+  constructor
+  · exact inv_normal _ hok (by simp [openExternally])
+  · unfold hookDone
+    split
+    · exact inv_normal _ hok (by simp)
+    · exact h
+
+/-- `opens` names exactly the steps that start the hook: when it reports a link, `update` ends
+    in `opening` mode with that link in the buffer. -/
+theorem opens_spec (w : World) (s : State) (k : Nat) (l : Str) (h : opens w s k = some l) :
+    ∃ s', update w s k = .ok s' ∧ s'.mode = .opening ∧ s'.buffer = l := by
+  unfold opens at h
+  split at h
+  · cases h
+  · rename_i hg
+    simp only [not_or] at hg
+    obtain ⟨g1, _, _, g4, _, _⟩ := hg
+    split at h
+    · cases h
+    · rename_i cur hcur
+      split at h
+      · rename_i hsel
+        split at h
+        · rename_i h13
+          subst h13
+          split at h
+          · rename_i n x hn
+            exact ⟨_, enter_opens_externally w s x n l hsel.1 hcur hn h, rfl, rfl⟩
+          · cases h
+        · cases h
+      · split at h
+        · rename_i hk
+          cases hm : mediaOf w cur with
+          | none => rw [hm] at h; cases h
+          | some x =>
+            rw [hm] at h
+            cases h
+            exact update_media w s k cur x g1 g4 (.inl hk) hcur (by rw [if_pos hk]; exact hm)
+        · rename_i hno
+          split at h
+          · rename_i hk
+            cases hm : pictureOf w false cur with
+            | none => rw [hm] at h; cases h
+            | some x =>
+              rw [hm] at h
+              cases h
+              refine update_media w s k cur x g1 g4 (.inr (.inl hk)) hcur ?_
+              rw [if_neg hno]
+              subst hk
+              exact hm
+          · split at h
+            · rename_i hk
+              cases hm : pictureOf w true cur with
+              | none => rw [hm] at h; cases h
+              | some x =>
+                rw [hm] at h
+                cases h
+                refine update_media w s k cur x g1 g4 (.inr (.inr hk)) hcur ?_
+                rw [if_neg hno]
+                subst hk
+                exact hm
+            · cases h
 
 end C07
